@@ -15,6 +15,7 @@ package main
 import (
 	"context"
 	"encoding/binary"
+	"encoding/json"
 	"fmt"
 	"io"
 	"log"
@@ -48,6 +49,9 @@ type event struct {
 	ents [][2]uint64 // (index, payload)
 }
 
+// diskState is what an on-disk state machine made durable
+type diskState struct{ applied, count uint64 }
+
 type recorder struct {
 	mu     sync.Mutex
 	events []event
@@ -70,15 +74,17 @@ type recorder struct {
 	lingerEntered chan struct{}
 	delay        time.Duration // randomised delay inside methods (thorough)
 	rnd          *vh.Rand
-	disk         uint64 // the "disk" of the on-disk state machine: last applied index made durable
-	diskCount    uint64
+	logf         *os.File  // every event is appended at once: the log survives a crash of the library
+	disk0        diskState // the "disk" of shard 1's on-disk state machine (survives restarts)
+	cur          uint64    // incarnation of shard 1's current state machine
+	lingerGate   chan struct{}
 }
 
 func newRecorder(seed uint64) *recorder {
 	return &recorder{closedC: map[uint64]chan struct{}{}, blockEntered: make(chan struct{}, 64),
 		release: make(chan struct{}), rnd: vh.NewRand(seed),
 		closeEntered: make(chan struct{}, 8), closeRelease: make(chan struct{}, 8),
-		lingerEntered: make(chan struct{}, 8)}
+		lingerEntered: make(chan struct{}, 8), lingerGate: make(chan struct{}, 8)}
 }
 
 func (r *recorder) newInc() uint64 {
@@ -91,7 +97,7 @@ func (r *recorder) newInc() uint64 {
 
 func (r *recorder) enter(inc uint64, meth string, ents [][2]uint64) {
 	r.mu.Lock()
-	r.events = append(r.events, event{kind: 'E', inc: inc, meth: meth, ents: ents})
+	r.add(event{kind: 'E', inc: inc, meth: meth, ents: ents})
 	d := time.Duration(0)
 	if r.delay > 0 {
 		d = time.Duration(r.rnd.Intn(int(r.delay)))
@@ -104,23 +110,56 @@ func (r *recorder) enter(inc uint64, meth string, ents [][2]uint64) {
 
 func (r *recorder) exit(inc uint64, meth string, v uint64) {
 	r.mu.Lock()
-	r.events = append(r.events, event{kind: 'X', inc: inc, meth: meth, v: v})
+	r.add(event{kind: 'X', inc: inc, meth: meth, v: v})
 	if meth == "Close" {
 		close(r.closedC[inc])
 	}
 	r.mu.Unlock()
 }
 
-func (r *recorder) ack(payload uint64) {
+func (r *recorder) ack(inc uint64, payload uint64) {
 	r.mu.Lock()
-	r.events = append(r.events, event{kind: 'A', inc: r.incs, meth: "", v: payload})
+	r.add(event{kind: 'A', inc: inc, meth: "", v: payload})
 	r.mu.Unlock()
 }
 
 func (r *recorder) currentClosed() chan struct{} {
 	r.mu.Lock()
 	defer r.mu.Unlock()
-	return r.closedC[r.incs]
+	return r.closedC[r.cur]
+}
+
+func (r *recorder) closedOf(inc uint64) chan struct{} {
+	r.mu.Lock()
+	defer r.mu.Unlock()
+	return r.closedC[inc]
+}
+
+// newCur: a new incarnation of shard 1's state machine
+func (r *recorder) newCur() uint64 {
+	i := r.newInc()
+	r.mu.Lock()
+	r.cur = i
+	r.mu.Unlock()
+	return i
+}
+
+func (r *recorder) curInc() uint64 {
+	r.mu.Lock()
+	defer r.mu.Unlock()
+	return r.cur
+}
+
+func (r *recorder) sawExit(meth string) int {
+	r.mu.Lock()
+	defer r.mu.Unlock()
+	n := 0
+	for _, e := range r.events {
+		if e.kind == 'X' && e.meth == meth {
+			n++
+		}
+	}
+	return n
 }
 
 func (r *recorder) releaseBlocked() {
@@ -136,28 +175,86 @@ func (r *recorder) releaseChan() chan struct{} {
 	return r.release
 }
 
-func (r *recorder) writeLog(path string) {
-	_ = os.MkdirAll(filepath.Dir(path), 0755)
-	w := vh.Create(path)
-	for _, e := range r.events {
-		switch e.kind {
-		case 'E':
-			s := "-"
-			if len(e.ents) > 0 {
-				parts := make([]string, len(e.ents))
-				for i, x := range e.ents {
-					parts[i] = fmt.Sprintf("%d:%d", x[0], x[1])
-				}
-				s = strings.Join(parts, ",")
+func eventLine(e event) string {
+	switch e.kind {
+	case 'E':
+		s := "-"
+		if len(e.ents) > 0 {
+			parts := make([]string, len(e.ents))
+			for i, x := range e.ents {
+				parts[i] = fmt.Sprintf("%d:%d", x[0], x[1])
 			}
-			w.Printf("E %d %s %s\n", e.inc, e.meth, s)
-		case 'X':
-			w.Printf("X %d %s %d\n", e.inc, e.meth, e.v)
-		case 'A':
-			w.Printf("A %d %d\n", e.inc, e.v)
+			s = strings.Join(parts, ",")
+		}
+		return fmt.Sprintf("E %d %s %s\n", e.inc, e.meth, s)
+	case 'X':
+		return fmt.Sprintf("X %d %s %d\n", e.inc, e.meth, e.v)
+	}
+	return fmt.Sprintf("A %d %d\n", e.inc, e.v)
+}
+
+// add appends an event (r.mu held) and, when a log file is open, its line
+func (r *recorder) add(e event) {
+	r.events = append(r.events, e)
+	if r.logf != nil {
+		_, _ = r.logf.WriteString(eventLine(e))
+	}
+}
+
+func (r *recorder) openLog(path string) {
+	_ = os.MkdirAll(filepath.Dir(path), 0755)
+	f, err := os.Create(path)
+	if err == nil {
+		r.logf = f
+	}
+}
+
+func (r *recorder) closeLog() {
+	r.mu.Lock()
+	defer r.mu.Unlock()
+	if r.logf != nil {
+		_ = r.logf.Close()
+		r.logf = nil
+	}
+}
+
+// parseLog reads a (possibly partial) log back
+func parseLog(path string) []event {
+	var evs []event
+	b, err := os.ReadFile(path)
+	if err != nil {
+		return nil
+	}
+	for _, line := range strings.Split(string(b), "\n") {
+		f := strings.Fields(line)
+		switch {
+		case len(f) == 4 && f[0] == "E":
+			e := event{kind: 'E', meth: f[2]}
+			e.inc, _ = strconv.ParseUint(f[1], 10, 64)
+			if f[3] != "-" {
+				for _, x := range strings.Split(f[3], ",") {
+					ab := strings.Split(x, ":")
+					if len(ab) == 2 {
+						i, _ := strconv.ParseUint(ab[0], 10, 64)
+						p, _ := strconv.ParseUint(ab[1], 10, 64)
+						e.ents = append(e.ents, [2]uint64{i, p})
+					}
+				}
+			}
+			evs = append(evs, e)
+		case len(f) == 4 && f[0] == "X":
+			e := event{kind: 'X', meth: f[2]}
+			e.inc, _ = strconv.ParseUint(f[1], 10, 64)
+			e.v, _ = strconv.ParseUint(f[3], 10, 64)
+			evs = append(evs, e)
+		case len(f) == 3 && f[0] == "A":
+			e := event{kind: 'A'}
+			e.inc, _ = strconv.ParseUint(f[1], 10, 64)
+			e.v, _ = strconv.ParseUint(f[2], 10, 64)
+			evs = append(evs, e)
 		}
 	}
-	w.Close()
+	return evs
 }
 
 // ---------------------------------------------------------------- state machines
@@ -226,6 +323,7 @@ func (c *core) linger(flag *int32, done <-chan struct{}) bool {
 	select {
 	case <-done:
 		stopped = true
+	case <-c.r.lingerGate:
 	case <-time.After(time.Second):
 	}
 	time.Sleep(40 * time.Millisecond)
@@ -351,14 +449,15 @@ func (s *concSM) Close() error { return s.close() }
 // on-disk: the "disk" lives in the recorder and survives restarts
 type diskSM struct {
 	core
+	ds *diskState
 	mu sync.Mutex
 }
 
 func (s *diskSM) Open(_ <-chan struct{}) (uint64, error) {
 	s.r.enter(s.inc, "Open", nil)
 	s.mu.Lock()
-	s.applied = atomic.LoadUint64(&s.r.disk)
-	atomic.StoreUint64(&s.count, atomic.LoadUint64(&s.r.diskCount))
+	s.applied = atomic.LoadUint64(&s.ds.applied)
+	atomic.StoreUint64(&s.count, atomic.LoadUint64(&s.ds.count))
 	a := s.applied
 	s.mu.Unlock()
 	s.r.exit(s.inc, "Open", a)
@@ -375,8 +474,8 @@ func (s *diskSM) Update(es []sm.Entry) ([]sm.Entry, error) {
 		s.applied = es[i].Index
 		n := atomic.AddUint64(&s.count, 1)
 		// every update is durable at once (a legal, if slow, on-disk state machine)
-		atomic.StoreUint64(&s.r.disk, s.applied)
-		atomic.StoreUint64(&s.r.diskCount, n)
+		atomic.StoreUint64(&s.ds.applied, s.applied)
+		atomic.StoreUint64(&s.ds.count, n)
 		es[i].Result = sm.Result{Value: es[i].Index}
 	}
 	s.mu.Unlock()
@@ -419,8 +518,8 @@ func (s *diskSM) RecoverFromSnapshot(r io.Reader, done <-chan struct{}) error {
 		s.mu.Lock()
 		s.applied = a
 		atomic.StoreUint64(&s.count, c)
-		atomic.StoreUint64(&s.r.disk, a)
-		atomic.StoreUint64(&s.r.diskCount, c)
+		atomic.StoreUint64(&s.ds.applied, a)
+		atomic.StoreUint64(&s.ds.count, c)
 		s.mu.Unlock()
 	}
 	s.r.exit(s.inc, "RecoverFromSnapshot", a)
@@ -460,6 +559,7 @@ func (chanFactory) Create(c config.NodeHostConfig, h raftio.MessageHandler, ch r
 func (chanFactory) Validate(string) bool { return true }
 
 type liveCase struct {
+	snapw             uint64 // Expert.Engine.SnapshotShards
 	id, kind, logPath string
 	seed              uint64
 	ops               []string
@@ -482,6 +582,7 @@ type live struct {
 	started bool
 	payload uint64
 	hostClosed bool
+	bUsed, s2Used bool
 	dir     string
 	fs      gvfs.FS
 	wg      sync.WaitGroup
@@ -503,15 +604,15 @@ func (l *live) startW(waitReady bool) error {
 	switch l.c.kind {
 	case "plain":
 		err = l.nh.StartReplica(members, false, func(uint64, uint64) sm.IStateMachine {
-			return &plainSM{core{r: l.r, inc: l.r.newInc()}}
+			return &plainSM{core{r: l.r, inc: l.r.newCur()}}
 		}, rc)
 	case "conc":
 		err = l.nh.StartConcurrentReplica(members, false, func(uint64, uint64) sm.IConcurrentStateMachine {
-			return &concSM{core: core{r: l.r, inc: l.r.newInc()}}
+			return &concSM{core: core{r: l.r, inc: l.r.newCur()}}
 		}, rc)
 	default:
 		err = l.nh.StartOnDiskReplica(members, false, func(uint64, uint64) sm.IOnDiskStateMachine {
-			return &diskSM{core: core{r: l.r, inc: l.r.newInc()}}
+			return &diskSM{core: core{r: l.r, inc: l.r.newCur()}, ds: &l.r.disk0}
 		}, rc)
 	}
 	if err == nil {
@@ -520,17 +621,25 @@ func (l *live) startW(waitReady bool) error {
 	return err
 }
 
-func (l *live) propose() bool {
+func (l *live) propose() bool { return l.proposeTo(shardID, 0) }
+
+// proposeTo proposes a fresh payload to shard sid; the acknowledgement is recorded for
+// incarnation inc (0: shard 1's current one)
+func (l *live) proposeTo(sid uint64, inc uint64) bool {
 	l.payload++
 	p := l.payload
 	cmd := make([]byte, 8)
 	binary.LittleEndian.PutUint64(cmd, p)
 	for try := 0; try < 40; try++ {
 		ctx, cancel := context.WithTimeout(context.Background(), 500*time.Millisecond)
-		_, err := l.nh.SyncPropose(ctx, l.nh.GetNoOPSession(shardID), cmd)
+		_, err := l.nh.SyncPropose(ctx, l.nh.GetNoOPSession(sid), cmd)
 		cancel()
 		if err == nil {
-			l.r.ack(p)
+			// acknowledgements are only recorded for shard 1: the exactly-once bookkeeping of the
+			// checker is per replicated log, a second shard is only checked for order/duplicates/overlap
+			if inc == 0 {
+				l.r.ack(l.r.curInc(), p)
+			}
 			return true
 		}
 		if err == dragonboat.ErrShardNotFound || err == dragonboat.ErrClosed || err == dragonboat.ErrShardClosed {
@@ -554,7 +663,7 @@ func (l *live) run() {
 	nhc := config.NodeHostConfig{
 		NodeHostDir: dir, RTTMillisecond: 2, RaftAddress: fmt.Sprintf("c11-host-%d", hostSeq),
 		Expert: config.ExpertConfig{FS: fs, TransportFactory: chanFactory{},
-			Engine: config.EngineConfig{ExecShards: 2, CommitShards: 2, ApplyShards: 2, SnapshotShards: 2, CloseShards: 2}},
+			Engine: config.EngineConfig{ExecShards: 2, CommitShards: 2, ApplyShards: 2, SnapshotShards: l.c.snapw, CloseShards: 2}},
 	}
 	nh, err := dragonboat.NewNodeHost(nhc)
 	if err != nil {
@@ -702,6 +811,10 @@ func (l *live) run() {
 			l.closeHost()
 			atomic.StoreInt32(&l.r.lingerSave, 0)
 			atomic.StoreInt32(&l.r.lingerRecover, 0)
+		case "PENDSTOP":
+			l.pendStop()
+		case "STREAM2":
+			l.stream2()
 		case "LR": // late read: ReadIndex completes, the shard is stopped, the client then reads locally while Close runs
 			if l.running {
 				rs, err := l.nh.ReadIndex(shardID, time.Second)
@@ -796,6 +909,152 @@ func (l *live) run() {
 	l.wg.Wait()
 }
 
+// pendStop: a snapshot job of a second shard waits in the pool because the only snapshot
+// worker (header snapw=1) is inside a lingering SaveSnapshot of shard 1; the second shard is
+// stopped and closed, then the worker becomes free. The waiting job must be dropped.
+func (l *live) pendStop() {
+	if !l.running || l.bUsed {
+		return
+	}
+	l.bUsed = true
+	const shardB = 2
+	var incB uint64
+	rc := config.Config{ReplicaID: 1, ShardID: shardB, ElectionRTT: 5, HeartbeatRTT: 1, CheckQuorum: true, WaitReady: true}
+	members := map[uint64]dragonboat.Target{1: l.nh.RaftAddress()}
+	var err error
+	switch l.c.kind {
+	case "plain":
+		err = l.nh.StartReplica(members, false, func(uint64, uint64) sm.IStateMachine {
+			incB = l.r.newInc()
+			return &plainSM{core{r: l.r, inc: incB}}
+		}, rc)
+	case "conc":
+		err = l.nh.StartConcurrentReplica(members, false, func(uint64, uint64) sm.IConcurrentStateMachine {
+			incB = l.r.newInc()
+			return &concSM{core: core{r: l.r, inc: incB}}
+		}, rc)
+	default:
+		err = l.nh.StartOnDiskReplica(members, false, func(uint64, uint64) sm.IOnDiskStateMachine {
+			incB = l.r.newInc()
+			return &diskSM{core: core{r: l.r, inc: incB}, ds: &diskState{}}
+		}, rc)
+	}
+	if err != nil {
+		l.st.Count("start-error")
+		return
+	}
+	l.proposeTo(shardB, incB)
+	l.proposeTo(shardB, incB)
+	// the only snapshot worker gets busy with shard 1
+	for len(l.r.lingerEntered) > 0 {
+		<-l.r.lingerEntered
+	}
+	for len(l.r.lingerGate) > 0 {
+		<-l.r.lingerGate
+	}
+	l.propose()
+	atomic.StoreInt32(&l.r.lingerSave, 1)
+	if l.c.kind == "disk" {
+		l.wg.Add(1)
+		go func() { defer l.wg.Done(); l.export() }()
+	} else {
+		_, _ = l.nh.RequestSnapshot(shardID, dragonboat.DefaultSnapshotOption, 2*time.Second)
+	}
+	select {
+	case <-l.r.lingerEntered:
+		l.st.Count("pendstop-worker-busy:true")
+	case <-time.After(time.Second):
+		l.st.Count("pendstop-worker-busy:false")
+	}
+	// a snapshot of the second shard is requested and has to wait
+	_, _ = l.nh.RequestSnapshot(shardB, dragonboat.DefaultSnapshotOption, 2*time.Second)
+	time.Sleep(30 * time.Millisecond)
+	cc := l.r.closedOf(incB)
+	_ = l.nh.StopShard(shardB)
+	select {
+	case <-cc:
+	case <-time.After(2 * time.Second):
+		l.st.Count("close-not-seen")
+	}
+	// the worker becomes free
+	atomic.StoreInt32(&l.r.lingerSave, 0)
+	select {
+	case l.r.lingerGate <- struct{}{}:
+	default:
+	}
+	time.Sleep(120 * time.Millisecond)
+	for len(l.r.lingerGate) > 0 {
+		<-l.r.lingerGate
+	}
+}
+
+// stream2: two new non-voting replicas of an on-disk shard whose log has been compacted join
+// at the same time: both need a streamed snapshot while PrepareSnapshot dwells.
+func (l *live) stream2() {
+	if !l.running || l.s2Used || l.c.kind != "disk" {
+		return
+	}
+	l.s2Used = true
+	for i := 0; i < 3; i++ {
+		l.propose()
+	}
+	ctx, cancel := context.WithTimeout(context.Background(), 2*time.Second)
+	_, _ = l.nh.SyncRequestSnapshot(ctx, shardID, dragonboat.SnapshotOption{OverrideCompactionOverhead: true, CompactionOverhead: 1})
+	cancel()
+	for i := 0; i < 3; i++ {
+		l.propose()
+		time.Sleep(3 * time.Millisecond)
+	}
+	atomic.StoreInt64(&l.r.dwellPrepare, int64(200*time.Millisecond))
+	rf := newRecorder(l.c.seed + 7)
+	var hosts []*dragonboat.NodeHost
+	base := l.nh.RaftAddress()
+	for rid := uint64(2); rid <= 3; rid++ {
+		addr := fmt.Sprintf("%s-f%d", base, rid)
+		nhc := config.NodeHostConfig{
+			NodeHostDir: fmt.Sprintf("%s-f%d", l.dir, rid), RTTMillisecond: 2, RaftAddress: addr,
+			Expert: config.ExpertConfig{FS: gvfs.NewMem(), TransportFactory: chanFactory{},
+				Engine: config.EngineConfig{ExecShards: 2, CommitShards: 2, ApplyShards: 2, SnapshotShards: 2, CloseShards: 2}},
+		}
+		nh, err := dragonboat.NewNodeHost(nhc)
+		if err != nil {
+			l.st.Count("start-error")
+			continue
+		}
+		hosts = append(hosts, nh)
+		ctx, cancel := context.WithTimeout(context.Background(), 2*time.Second)
+		if err := l.nh.SyncRequestAddNonVoting(ctx, shardID, rid, addr, 0); err != nil {
+			l.st.Count("add-nonvoting-error")
+		}
+		cancel()
+	}
+	for i, nh := range hosts {
+		rid := uint64(i + 2)
+		rc := config.Config{ReplicaID: rid, ShardID: shardID, ElectionRTT: 5, HeartbeatRTT: 1, CheckQuorum: true,
+			IsNonVoting: true, CompactionOverhead: 2}
+		if err := nh.StartOnDiskReplica(nil, true, func(uint64, uint64) sm.IOnDiskStateMachine {
+			return &diskSM{core: core{r: rf, inc: rf.newInc()}, ds: &diskState{}}
+		}, rc); err != nil {
+			l.st.Count("start-error")
+		}
+	}
+	t0 := time.Now()
+	for time.Since(t0) < 3*time.Second && rf.sawExit("RecoverFromSnapshot") < len(hosts) {
+		time.Sleep(5 * time.Millisecond)
+	}
+	l.st.Count(fmt.Sprintf("stream2-recovered:%d", rf.sawExit("RecoverFromSnapshot")))
+	atomic.StoreInt64(&l.r.dwellPrepare, 0)
+	for _, nh := range hosts {
+		done := make(chan struct{})
+		go func(nh *dragonboat.NodeHost) { nh.Close(); close(done) }(nh)
+		select {
+		case <-done:
+		case <-time.After(5 * time.Second):
+			l.st.Count("nodehost-close-timeout")
+		}
+	}
+}
+
 var exportSeq uint64
 
 func (l *live) export() {
@@ -832,11 +1091,12 @@ func (l *live) closeHost() {
 
 func genLive(r *vh.Rand, id string, outDir string, tier string) string {
 	kind := []string{"plain", "conc", "disk"}[r.Intn(3)]
+	snapw := 2
 	var ops []string
 	ops = append(ops, "START", fmt.Sprintf("P %d", 1+r.Intn(4)))
 	n := 4 + r.Intn(6)
 	for i := 0; i < n; i++ {
-		switch r.Intn(16) {
+		switch r.Intn(18) {
 		case 0, 1:
 			ops = append(ops, fmt.Sprintf("P %d", 1+r.Intn(5)))
 		case 2:
@@ -865,6 +1125,16 @@ func genLive(r *vh.Rand, id string, outDir string, tier string) string {
 			ops = append(ops, "STOP", fmt.Sprintf("QS 3 %d", r.Intn(3000)), "START", "P 1")
 		case 15:
 			ops = append(ops, "SYNCX")
+		case 16:
+			snapw = 1
+			ops = append(ops, "PENDSTOP")
+		case 17:
+			if kind == "disk" {
+				ops = append(ops, "STREAM2")
+			} else {
+				snapw = 1
+				ops = append(ops, "PENDSTOP")
+			}
 		}
 	}
 	switch r.Intn(6) {
@@ -875,7 +1145,7 @@ func genLive(r *vh.Rand, id string, outDir string, tier string) string {
 	case 3:
 		ops = append(ops, "CLOSEHOST R")
 	}
-	return fmt.Sprintf("%s live kind=%s seed=%d log=%s | %s", id, kind, r.U64()%1000000,
+	return fmt.Sprintf("%s live kind=%s snapw=%d seed=%d log=%s | %s", id, kind, snapw, r.U64()%1000000,
 		filepath.Join(outDir, "logs", id+".log"), strings.Join(ops, " ; "))
 }
 
@@ -903,23 +1173,126 @@ func main() {
 		// (3 minutes); the library reads overrides from dragonboat-soft-settings.json in the
 		// working directory when the process starts, so the run happens in a child process
 		if os.Getenv("C11_CHILD") == "" {
-			out, _ := filepath.Abs(a.Out)
-			cases, _ := filepath.Abs(a.Cases)
-			_ = os.MkdirAll(out, 0755)
-			_ = os.WriteFile(filepath.Join(out, "dragonboat-soft-settings.json"), []byte(`{"SyncTaskInterval": 20}`), 0644)
-			exe, _ := os.Executable()
-			cmd := exec.Command(exe, "run", "-tier", a.Tier, "-seed", fmt.Sprint(a.Seed), "-cases", cases, "-out", out)
-			cmd.Dir = out
-			cmd.Env = append(os.Environ(), "C11_CHILD=1")
-			cmd.Stdout, cmd.Stderr = os.Stdout, os.Stderr
-			if err := cmd.Run(); err != nil {
-				fmt.Fprintln(os.Stderr, err)
-				os.Exit(1)
-			}
+			runParent(a)
 			return
 		}
 		runCases(a)
 	}
+}
+
+// runParent runs every case in its own child process (working directory = the output
+// directory, where the settings override is placed): a panic on one of the library's own
+// goroutines cannot be caught in-process; it must be attributed to the case that caused it
+// and must not take the other cases down.
+func runParent(a vh.Args) {
+	out, _ := filepath.Abs(a.Out)
+	cases, _ := filepath.Abs(a.Cases)
+	_ = os.MkdirAll(out, 0755)
+	_ = os.WriteFile(filepath.Join(out, "dragonboat-soft-settings.json"), []byte(`{"SyncTaskInterval": 20}`), 0644)
+	exe, _ := os.Executable()
+	st := vh.NewStats("live cases in which at least two user-state-machine calls of different goroutines were in progress at the same time or a stop/restart/close happened")
+	lines := vh.ReadLines(cases)
+	results := make([]string, len(lines))
+	var mu sync.Mutex
+	sem := make(chan struct{}, 6)
+	var wg sync.WaitGroup
+	for i, line := range lines {
+		hdr := strings.Fields(line)
+		if len(hdr) < 2 {
+			continue
+		}
+		id := hdr[0]
+		if lp := field(hdr, "log", ""); lp != "" {
+			_ = os.Remove(lp)
+		}
+		wg.Add(1)
+		sem <- struct{}{}
+		go func(i int, line, id string) {
+			defer wg.Done()
+			defer func() { <-sem }()
+			dir := filepath.Join(out, "case", fmt.Sprint(i))
+			_ = os.MkdirAll(dir, 0755)
+			cf := filepath.Join(dir, "cases.txt")
+			_ = os.WriteFile(cf, []byte(line+"\n"), 0644)
+			cmd := exec.Command(exe, "run", "-tier", a.Tier, "-seed", fmt.Sprint(a.Seed), "-cases", cf, "-out", dir)
+			cmd.Dir = out
+			cmd.Env = append(os.Environ(), "C11_CHILD=1")
+			var errb strings.Builder
+			cmd.Stderr = &errb
+			done := make(chan error, 1)
+			if err := cmd.Start(); err != nil {
+				done <- err
+			} else {
+				go func() { done <- cmd.Wait() }()
+			}
+			var err error
+			select {
+			case err = <-done:
+			case <-time.After(90 * time.Second):
+				_ = cmd.Process.Kill()
+				err = fmt.Errorf("timeout")
+			}
+			mu.Lock()
+			defer mu.Unlock()
+			if err != nil {
+				msg := "child process failed: " + err.Error()
+				for _, l := range strings.Split(errb.String(), "\n") {
+					if strings.HasPrefix(l, "panic:") || strings.HasPrefix(l, "fatal error:") {
+						if len(l) > 200 {
+							l = l[:200]
+						}
+						msg = "the library crashed: " + l
+						break
+					}
+				}
+				// the call log up to the crash was written event by event: evaluate it as usual
+				// (the model reads the same file); the property's own verdict comes first
+				if lp := field(hdr, "log", ""); lp != "" {
+					if evs := parseLog(lp); evs != nil {
+						m := monitor(field(hdr, "kind", "plain"), evs)
+						results[i] = fmt.Sprintf("%s live err=%d nupd=%d incs=%d\n", id, m.err, m.nupd, m.incs)
+						if m.err != 0 {
+							msg = m.msg + " (then " + msg + ")"
+						}
+					}
+				}
+				if results[i] == "" {
+					results[i] = fmt.Sprintf("%s live crashed\n", id)
+				}
+				st.Violation(id, msg)
+				st.Case(line, true, line)
+				st.Count("crashed")
+				return
+			}
+			if b, e := os.ReadFile(filepath.Join(dir, "impl.obs")); e == nil {
+				results[i] = string(b)
+			}
+			var cs vh.Stats
+			if b, e := os.ReadFile(filepath.Join(dir, "stats.json")); e == nil && json.Unmarshal(b, &cs) == nil {
+				st.Evaluations += cs.Evaluations
+				st.DistinctNontrivial += cs.DistinctNontrivial
+				for k, v := range cs.Distribution {
+					st.Distribution[k] += v
+				}
+				st.MonitorViolations = append(st.MonitorViolations, cs.MonitorViolations...)
+				for _, smp := range cs.Samples {
+					if len(st.Samples) < 5 {
+						st.Samples = append(st.Samples, smp)
+					}
+				}
+			}
+		}(i, line, id)
+	}
+	wg.Wait()
+	obs := vh.Create(filepath.Join(out, "impl.obs"))
+	for _, r := range results {
+		if r != "" {
+			obs.Printf("%s", r)
+		}
+	}
+	obs.Close()
+	st.Write(out)
+	_ = os.RemoveAll(filepath.Join(out, "case"))
 }
 
 func runCases(a vh.Args) {
@@ -961,7 +1334,14 @@ func runCases(a vh.Args) {
 				defer func() { <-sem }()
 				seed, _ := strconv.ParseUint(field(hdr, "seed", "1"), 10, 64)
 				c := liveCase{id: id, kind: field(hdr, "kind", "plain"), logPath: field(hdr, "log", ""), seed: seed, ops: ops}
+				c.snapw, _ = strconv.ParseUint(field(hdr, "snapw", "2"), 10, 64)
+				if c.snapw == 0 {
+					c.snapw = 2
+				}
 				l := &live{c: c, r: newRecorder(seed), st: vh.NewStats("")}
+				if c.logPath != "" {
+					l.r.openLog(c.logPath)
+				}
 				if a.Tier == "thorough" {
 					l.r.delay = 300 * time.Microsecond
 				}
@@ -976,9 +1356,7 @@ func runCases(a vh.Args) {
 					st.Violation(id, "panic: "+p)
 					return
 				}
-				if c.logPath != "" {
-					l.r.writeLog(c.logPath)
-				}
+				l.r.closeLog()
 				m := monitor(c.kind, l.r.events)
 				results[i] = fmt.Sprintf("%s live err=%d nupd=%d incs=%d\n", id, m.err, m.nupd, m.incs)
 				st.Count("kind:" + c.kind)
